@@ -17,9 +17,13 @@ enum Wrap {
     Neg,
     List,
     CallArg,
+    /// nested do-blocks (each adds a scope), the innermost step passing through a helper that is
+    /// defined *after* the recursive function (a late-bound top-level name: found only at the far
+    /// end of the scope chain)
+    DoLate,
 }
 
-const WRAPS: [Wrap; 4] = [Wrap::Plus, Wrap::Neg, Wrap::List, Wrap::CallArg];
+const WRAPS: [Wrap; 5] = [Wrap::Plus, Wrap::Neg, Wrap::List, Wrap::CallArg, Wrap::DoLate];
 
 /// Wrap `inner` in `d` levels of the nesting construct. Returns (text, additive contribution).
 fn wrap(w: Wrap, d: usize, inner: &str) -> String {
@@ -46,6 +50,12 @@ fn wrap(w: Wrap, d: usize, inner: &str) -> String {
         Wrap::CallArg => {
             for _ in 0..d {
                 s = format!("id({})", s);
+            }
+        }
+        Wrap::DoLate => {
+            s = format!("late({})", s);
+            for i in 0..d {
+                s = format!("do {{\n  t{} = n\n  return {}\n}}", i, s);
             }
         }
     }
@@ -106,7 +116,7 @@ fn build(k: &Kind, w: Wrap, d: usize, bounded: bool) -> Prog {
         defs = defs.replace("{GUARDG}", guard).replace("{STEPG}", &step_g);
     }
     let levels = k.levels;
-    let source = format!("id = x => x\n{}\noutput r = f({})\n", defs, if bounded { levels.to_string() } else { "0".into() });
+    let source = format!("id = x => x\n{}\nlate = x => x\noutput r = f({})\n", defs, if bounded { levels.to_string() } else { "0".into() });
     // expected value of the bounded variant
     let per_level = match w {
         Wrap::Plus => d as f64,
@@ -216,7 +226,7 @@ pub fn run(ctx: &Ctx, replay: Option<&J>) -> i32 {
     finish(
         ctx,
         "exploration",
-        "recursion grammar: 11 recursion kinds (self, mutual, via / map / reduce / filter callbacks, do-block body, record-wrapped, into, conditional arms, closure-returning-closure) x 4 nesting constructs (binary +, unary -, list literal + index, call argument) x per-call nesting depth 1..32 (quick: 1,2,4,8,16,32) x {unbounded, bounded to a few hundred calls}; every program run twice through the release CLI under an 8 MiB stack limit; distinct = distinct programs",
+        "recursion grammar: 11 recursion kinds (self, mutual, via / map / reduce / filter callbacks, do-block body, record-wrapped, into, conditional arms, closure-returning-closure) x 5 nesting constructs (binary +, unary -, list literal + index, call argument, nested do-blocks around a helper defined after the function) x per-call nesting depth 1..32 (quick: 1,2,4,8,16,32) x {unbounded, bounded to a few hundred calls}; every program run twice through the release CLI under an 8 MiB stack limit; distinct = distinct programs",
         true,
         None,
     )
